@@ -31,6 +31,11 @@ POOL = {
     'JS': ('JensenSeaton', {'K': 4.0, 'a': 3.0, 'b': 0.05, 'c': 1.1}),
     'TK': ('TemkinApprox', {'n_m': 4.0, 'K': 1.5, 'tht': 0.3}),
 }
+# the same models DECLARING a narrow pressure range (the interval a model was fitted on): IAST evaluates them beyond it
+# (with a warning), so the results are those of the equations, not of the declared range
+NARROW = {'L1n': 'L1', 'L2n': 'L2', 'Tn': 'T'}
+for _k, _b in NARROW.items():
+    POOL[_k] = POOL[_b]
 POINT_POOL = {
     'pL': ('Langmuir', {'K': 2.0, 'n_m': 3.5}), 'pT': ('Toth', {'n_m': 4.5, 'K': 1.0, 't': 0.8}), 'pL2': ('Langmuir', {'K': 0.5, 'n_m': 5.0}),
     # the same kind of data held in a table with supplementary columns that are partly empty (the points themselves are complete)
@@ -59,6 +64,9 @@ def iso(key, scale):
         m = ml.mk(name, q, T)
         m.pressure_range = (1e-3, 400.0)
         m.loading_range = (0.0, 10.0)
+        if key in NARROW:
+            m.pressure_range = (0.01, 1.0)
+            m.loading_range = (float(m.loading(0.01)), float(m.loading(1.0)))
         _ISO[k] = pygaps.ModelIsotherm(model=m, material='c13', adsorbate='CO2', temperature=T, **U)
     elif key.endswith('x'):
         import pandas
@@ -228,6 +236,7 @@ def work(arg):
             ys = numpy.linspace(0.01, 0.99, 5)
             for j, yy in enumerate(ys):
                 r = core.call(pgi.iast_point, isos, [yy, 1 - yy], warningoff=True)
+                out['ev'] += 1
                 if r.ok:
                     out['nt'] += 1
                     xx = r.value[0] / (r.value[0] + r.value[1])
